@@ -365,11 +365,22 @@ def origin_cert(paths: Dict[str, str], name: str, kind: str) -> Dict[str, str]:
         return {'cert': crt, 'key': key}
     csr = os.path.join(d, 'o-%s.csr' % tag)
     _run([o, 'req', '-new', '-key', 'origin-key.pem', '-out', csr, '-subj', '/CN=%s' % subject], d)
-    args = [o, 'x509', '-req', '-in', csr, '-CA', 'pub-cert.pem', '-CAkey', 'pub-key.pem', '-set_serial', '4100', '-out', crt,
-            '-extfile', ext]
-    # OpenSSL 3.0's x509 has no -not_after: a negative validity gives notAfter = yesterday
-    args += ['-days', '-1' if kind == 'expired' else '365']
-    _run(args, d)
+    if kind == 'expired':
+        # `openssl ca` takes explicit validity dates on every OpenSSL 1.1 / 3.x (x509 -days -1 is refused by some builds)
+        db = os.path.join(d, 'db-%s' % tag)
+        os.makedirs(db, exist_ok=True)
+        with open(os.path.join(db, 'index.txt'), 'w'):
+            pass
+        with open(os.path.join(db, 'serial'), 'w') as f:
+            f.write('1004\n')
+        cnf = os.path.join(d, 'ca-%s.cnf' % tag)
+        with open(cnf, 'w') as f:
+            f.write('[ ca ]\ndefault_ca = myca\n[ myca ]\ndir = %s\ndatabase = %s/index.txt\nnew_certs_dir = %s\n'
+                    'serial = %s/serial\ndefault_md = sha256\npolicy = pol\nunique_subject = no\ncopy_extensions = none\n'
+                    '[ pol ]\ncommonName = supplied\n' % (db, db, db, db))
+        _run([o, 'ca', '-config', cnf, '-cert', 'pub-cert.pem', '-keyfile', 'pub-key.pem', '-startdate', '20200101000000Z',
+              '-enddate', '20210101000000Z', '-in', csr, '-out', crt, '-batch', '-notext', '-extfile', ext], d)
+        return {'cert': crt, 'key': key}
+    _run([o, 'x509', '-req', '-in', csr, '-CA', 'pub-cert.pem', '-CAkey', 'pub-key.pem', '-set_serial', '4100', '-out', crt,
+          '-extfile', ext, '-days', '365'], d)
     return {'cert': crt, 'key': key}
-
-
